@@ -1516,40 +1516,48 @@ impl BuiltInFunction {
                     args[0].as_list(borrowed_heap)?.clone()
                 };
 
+                // an error raised by the key function ends the sort and is returned; it used to be
+                // read as "keys are equal", which also hid the call depth error of a runaway recursion
+                let mut failure: Option<RuntimeError> = None;
                 stable_sort_by(&mut list, &mut |a: &Value, b: &Value| {
+                    if failure.is_some() {
+                        return std::cmp::Ordering::Equal;
+                    }
+
                     // Only look up the function once, not twice
                     let func_def = get_function_def(func, &heap.borrow());
 
                     match func_def {
                         Some(fd) => {
-                            let result_a = fd.call(
-                                *func,
-                                vec![*a],
-                                Rc::clone(&heap),
-                                Rc::clone(&bindings),
-                                call_depth + 1,
-                                source,
-                            );
-                            let result_b = fd.call(
-                                *func,
-                                vec![*b],
-                                Rc::clone(&heap),
-                                Rc::clone(&bindings),
-                                call_depth + 1,
-                                source,
-                            );
+                            let key_of = |item: &Value| {
+                                fd.call(
+                                    *func,
+                                    vec![*item],
+                                    Rc::clone(&heap),
+                                    Rc::clone(&bindings),
+                                    call_depth + 1,
+                                    source,
+                                )
+                            };
+                            let keys = key_of(a).and_then(|val_a| Ok((val_a, key_of(b)?)));
 
-                            match (result_a, result_b) {
-                                (Ok(val_a), Ok(val_b)) => val_a
+                            match keys {
+                                Ok((val_a, val_b)) => val_a
                                     .compare(&val_b, &heap.borrow())
                                     .unwrap_or(None)
                                     .unwrap_or(std::cmp::Ordering::Equal),
-                                _ => std::cmp::Ordering::Equal,
+                                Err(error) => {
+                                    failure = Some(error);
+                                    std::cmp::Ordering::Equal
+                                }
                             }
                         }
                         _ => std::cmp::Ordering::Equal,
                     }
                 });
+                if let Some(error) = failure {
+                    return Err(error);
+                }
 
                 Ok(heap.borrow_mut().insert_list(list))
             }
